@@ -128,6 +128,14 @@ class CFG:
             return it
         if isinstance(stmt, ast.Try):
             return self._try(stmt, succ, ctx)
+        if hasattr(ast, 'Match') and isinstance(stmt, ast.Match):
+            # the subject is evaluated once; every case body is a possible successor, and so is falling through when no case matches
+            t = self._new('test', stmt.subject, stmt)
+            self._exc_edges(t, ctx)
+            for case in stmt.cases:
+                self._edge(t, self._seq(case.body, succ, ctx), 'true')
+            self._edge(t, succ, 'false')
+            return t
         if isinstance(stmt, (ast.With, ast.AsyncWith)):
             w = self._new('stmt', stmt, stmt)
             self._exc_edges(w, ctx)
